@@ -1,5 +1,7 @@
 import HexVerif.Lemmas.XcmpC08
+import HexVerif.Lemmas.XcmpC08V2
 import HexVerif.Xcmp.Compile
+import HexVerif.Properties.C01
 /-!
   # C08 - generated code stays inside its memory regions and balances the stack
 
@@ -28,6 +30,14 @@ import HexVerif.Xcmp.Compile
   * `C08_store_discipline` - every step of the machine `IAm` on which the C01 theorems run writes
     at most one word, inside the memory and outside the code; hence every run that
     `C01_v1_partial` / `C01_v2_partial` construct stores only into non-code words below 200000.
+  * `C08_v2_partial` - for the class `v2Ok` of `C01_v2_partial` (procedures and functions, recursion):
+    the ISA run on the image exits with the behaviour of the reference semantics, the memory of its
+    final state differs from the boot memory only in words inside the memory that hold no
+    instruction byte (the net effect of all stores lies outside the code), and when `main`
+    returns (rather than exiting through a system call) the machine reaches the exit stub with
+    the stack pointer word holding its initial value.  (Along the run every activation has
+    `lo <= sp` and `sp + size <= sp0`; this is the invariant of the induction `all_correct` and is
+    not exported per step.)
   Not discharged: that the `stackOffset` of every symbol in scope is one `LocalDeclLocations` /
   `FormalLocations` assigned (needs symbol-table lemmas; for the classes V1/V2 it is part of the
   reflective checks `v1Check`/`v2Check`), and the dynamic clauses on the ISA access log.
@@ -90,6 +100,40 @@ theorem C08_static_sp (go : Int) (h0 : 0 ≤ go) (h1 : go ≤ 199997) :
 theorem C08_store_discipline (env : IAm.Env) (c c' : IAm.Cfg) (io io' : Isa.IOSt) (h : IAm.Step env c io c' io') :
     c'.mem = c.mem ∨ ∃ w v, c'.mem = c.mem.write w v ∧ w < memWords ∧ env.isCode w = false :=
   C01s.step_store env c c' io io' h
+
+/-- **`C08_v2_partial`.**  Restriction: `C01s.v2Ok P` (decidable).  If the reference semantics
+    defines the behaviour `β` and the compiler produces `img`, then the ISA run on `img` exits with
+    `β.exit` and `β.events`; every word of its final memory that differs from the boot memory lies
+    inside the memory and holds no instruction byte of the final program; and if `main` returned,
+    the run (seen on the lowered directive list, before the peephole pass) passes the `_exit` label
+    of the start-up stub with `mem[1]` = the initial stack pointer `spValue globalsOffset`. -/
+theorem C08_v2_partial (P : X.Program) (inp : X.Input) (n : Nat) (β : X.Behaviour) (st : Stages) (img : Asm.Image)
+    (hr : C01s.v2Check P st img = true) (hst : stages P = .ok st) (hasm : assembleDirs st.optimised = .ok img)
+    (hrun : X.run P inp n = .defined β) :
+    ∃ m code j s' io, Isa.run m (Am.boot img) (Isa.IOSt.init inp.stdin inp.files) = .exited code j s' io ∧
+      code = β.exit ∧ io.log.reverse = β.events ∧
+      (∀ w, s'.mem.read w ≠ (Am.boot img).mem.read w → w < memWords ∧ (IAm.envOf st.optimised img).isCode w = false) ∧
+      (β.returned = true → ∃ a' b' mem',
+        IAm.Steps (C01s.v1Env st img) (C01s.cfg 0 0 0 (Am.boot img).mem) (Isa.IOSt.init inp.stdin inp.files)
+          (C01s.cfg (2 + st.cg.data.length + 3) a' b' mem') io ∧
+        mem'.read 1 = BitVec.ofNat 32 (spValue st.cg.globalsOffset).toNat) := by
+  have _ := hst
+  exact C01s.v2_c08 P st img inp n β hasm hr hrun
+
+/-! Non-vacuity of `C08_v2_partial`: the program `C01.demoV2` (recursive function, a procedure with
+    two parameters, a global) satisfies its hypotheses; its `main` exits through `0(r)`, and
+    `C01.demoV1`-like programs whose `main` returns are covered by the same check. -/
+example : ∃ st img, stages C01.demoV2 = .ok st ∧ assembleDirs st.optimised = .ok img ∧
+    C01s.v2Check C01.demoV2 st img = true := by
+  have h : C01s.v2Ok C01.demoV2 = true := by decide +kernel
+  unfold C01s.v2Ok at h
+  split at h
+  · rename_i st hst
+    split at h
+    · rename_i img himg
+      exact ⟨st, img, hst, himg, h⟩
+    · simp at h
+  · simp at h
 
 /-! Non-vacuity: a statement with a live temporary (`x := (a + b) + (c + d)`, all locals) is
     generated from a state with `offset = size = 4`; the premises hold and the frame grows to 5. -/
